@@ -299,7 +299,7 @@ class Unit:
         if "R7" in enabled:
             t, n = R.r7_expand_repo_macros(t, os.path.join(REPO, "p2panda-store/src/macros.rs"))
             self._count("R7", n)
-        for r in ("R25", "R2", "R5", "R4", "R6", "R16", "R16b", "R17", "R17b", "R22", "R3", "R10", "R15", "R18", "R18b", "R20"):
+        for r in ("R25", "R2", "R5", "R4", "R6", "R16", "R16b", "R16c", "R16d", "R16e", "R24", "R17", "R17b", "R22", "R3", "R10", "R15", "R18", "R18b", "R20"):
             if r in enabled or (r == "R17b" and "R17" in enabled) or r == "R25" or (r == "R16b" and "R16" in enabled):
                 t, n = R.RULES[r](t)
                 self._count(r, n)
